@@ -149,6 +149,8 @@ type replayer struct {
 	seenProg map[string]bool
 	extra    []expr.Option // options added to every compile (C17: the operator mapping)
 	reused   map[string]*vm.VM
+	opts     map[string]string // driver-specific flags
+	ocSeen   int
 }
 
 func (r *replayer) fail(f Failure) {
@@ -229,8 +231,21 @@ func (r *replayer) evalCase(c Case) {
 
 func runReplay(args []string) int {
 	prop, in, failPath, sumPath, modesArg := "", "", "", "", "struct:opt,struct:noopt"
+	from, only, progress := 0, -1, ""
+	var opts map[string]string
 	for i := 0; i+1 < len(args); i += 2 {
 		switch args[i] {
+		case "-from": // skip the cases before this index (0-based)
+			fmt.Sscan(args[i+1], &from)
+		case "-only": // run exactly this case
+			fmt.Sscan(args[i+1], &only)
+		case "-progress": // file that always holds the index of the case being executed
+			progress = args[i+1]
+		default:
+			if opts == nil {
+				opts = map[string]string{}
+			}
+			opts[args[i]] = args[i+1]
 		case "-prop":
 			prop = args[i+1]
 		case "-in":
@@ -243,7 +258,10 @@ func runReplay(args []string) int {
 			modesArg = args[i+1]
 		}
 	}
-	r := &replayer{prop: prop, maxSamp: 5}
+	r := &replayer{prop: prop, maxSamp: 5, opts: opts}
+	if r.opts == nil {
+		r.opts = map[string]string{}
+	}
 	r.sum.Prop = prop
 	r.sum.Skipped = map[string]int{}
 	r.sum.Stats = map[string]int{}
@@ -275,10 +293,23 @@ func runReplay(args []string) int {
 	}
 	sc := bufio.NewScanner(rd)
 	sc.Buffer(make([]byte, 1<<20), 1<<28)
+	idx := -1
+	var pf *os.File
+	if progress != "" {
+		pf, _ = os.Create(progress)
+		defer pf.Close()
+	}
 	for sc.Scan() {
 		line := sc.Bytes()
 		if len(line) == 0 {
 			continue
+		}
+		idx++
+		if idx < from || (only >= 0 && idx != only) {
+			continue
+		}
+		if pf != nil {
+			pf.WriteAt([]byte(fmt.Sprintf("%-12d", idx)), 0)
 		}
 		r.sum.Cases++
 		if err := r.dispatch(line); err != nil {
@@ -310,6 +341,18 @@ func (r *replayer) dispatch(line []byte) error {
 			return err
 		}
 		r.evalCase(c)
+	case "C05OC":
+		var c Case
+		if err := json.Unmarshal(line, &c); err != nil {
+			return err
+		}
+		r.ovConstCase(c)
+	case "C05CE":
+		var c Case
+		if err := json.Unmarshal(line, &c); err != nil {
+			return err
+		}
+		r.cleanExitCase(c)
 	case "C05OV":
 		var c OvCase
 		if err := json.Unmarshal(line, &c); err != nil {
